@@ -581,6 +581,7 @@ fn check_receiver_diffs(what: &str, ctx: &mut Ctx, log: &RxLog, old_content: &Co
 #[derive(Clone, Copy, Debug, PartialEq, Eq, Hash)]
 enum SKind {
     AxfrTcp,
+    AxfrTcpTsig,
     AxfrCompat,
     IxfrModelDiffs,
     IxfrLibDiffs,
@@ -593,6 +594,7 @@ impl SKind {
     fn label(self) -> &'static str {
         match self {
             SKind::AxfrTcp => "axfr-tcp",
+            SKind::AxfrTcpTsig => "axfr-tcp-tsig-middleware",
             SKind::AxfrCompat => "axfr-compat-one-rr-per-message",
             SKind::IxfrModelDiffs => "ixfr-tcp-model-diffs",
             SKind::IxfrLibDiffs => "ixfr-tcp-library-diffs",
@@ -605,13 +607,24 @@ impl SKind {
 
 fn run_sender(data: &[u8], ctx: &mut Ctx) -> CaseResult {
     let mut u = Unstructured::new(data);
-    let kind = [SKind::AxfrTcp, SKind::IxfrModelDiffs, SKind::IxfrLibDiffs, SKind::IxfrUdp, SKind::AxfrTcp, SKind::IxfrNoDiffs, SKind::AxfrCompat, SKind::IxfrUpToDate, SKind::IxfrLibDiffs][pick(&mut u, 9)];
-    let limit_choice = pick(&mut u, 6);
+    let kind = [SKind::AxfrTcp, SKind::IxfrModelDiffs, SKind::IxfrLibDiffs, SKind::IxfrUdp, SKind::AxfrTcp, SKind::IxfrNoDiffs, SKind::AxfrCompat, SKind::IxfrUpToDate, SKind::IxfrLibDiffs, SKind::AxfrTcpTsig][pick(&mut u, 10)];
+    let limit_choice = pick(&mut u, 9);
     let udp_hint = [None, Some(512u16), Some(1232), Some(4096), Some(65535)][pick(&mut u, 5)];
     let repack = if chance(&mut u, 110) { Some(gen_pack(&mut u)) } else { None };
     let specials = flag(&mut u);
     let req_id = u16_(&mut u);
-    let c = gen_case(&mut u, ctx, if matches!(kind, SKind::IxfrModelDiffs | SKind::IxfrLibDiffs | SKind::IxfrUdp) { 3 } else { 2 }, kind != SKind::AxfrCompat);
+    let big = chance(&mut u, 40);
+    let mut c = gen_case(&mut u, ctx, if matches!(kind, SKind::IxfrModelDiffs | SKind::IxfrLibDiffs | SKind::IxfrUdp) { 3 } else { 2 }, kind != SKind::AxfrCompat);
+    if big && matches!(kind, SKind::AxfrTcp | SKind::AxfrTcpTsig | SKind::IxfrNoDiffs) {
+        // a zone of more than one 64 KiB message (about 80 KB), the same
+        // padding in every version
+        let apex = c.apex.clone();
+        for v in c.chain.iter_mut() {
+            add_bulk(v, &apex, 9, 130, 600);
+        }
+        ctx.class("sender-zone>64K");
+    }
+    let c = c;
     let new = c.chain.last().unwrap().clone();
     let old = c.chain[0].clone();
     let new_content = new.content(&c.apex);
@@ -671,12 +684,13 @@ fn run_sender(data: &[u8], ctx: &mut Ctx) -> CaseResult {
         .map(|r| gn::wire_len(&r.owner) + 10 + r.rdata.len())
         .max()
         .unwrap_or(0);
-    let limit = [65535usize, 65535, 700, 1500, 5000, 20000][limit_choice].max(12 + gn::wire_len(&c.apex) + 4 + max_rec + 64).min(65535);
+    // 65535-120 / -300: what a TSIG or EDNS layer reserves
+    let limit = [65535usize, 65535 - 120, 700, 1500, 5000, 20000, 65535 - 300, 65535, 65535 - 16][limit_choice].max(12 + gn::wire_len(&c.apex) + 4 + max_rec + 64).min(65535);
     let reserve = (65535 - limit) as u16;
     if reserve > 0 {
         ctx.class("sender-byte-limit-lowered");
     }
-    let is_ixfr = !matches!(kind, SKind::AxfrTcp | SKind::AxfrCompat);
+    let is_ixfr = !matches!(kind, SKind::AxfrTcp | SKind::AxfrCompat | SKind::AxfrTcpTsig);
     let from = if kind == SKind::IxfrUpToDate { new.serial() } else { old.serial() };
     let udp = if kind == SKind::IxfrUdp { Some(udp_hint) } else { None };
     let provider = Provider { zone: sender_zone.clone(), diffs: diffs.clone(), compat: kind == SKind::AxfrCompat };
@@ -690,10 +704,49 @@ fn run_sender(data: &[u8], ctx: &mut Ctx) -> CaseResult {
             serve(p, &req).await
         })
     };
-    let mut responses = match serve_once(udp, reserve) {
-        Ok(r) => r,
-        Err(e) => vfail!(format!("{what}:no-response-stream"), "{e}"),
+    let mut responses = if kind == SKind::AxfrTcpTsig {
+        // TsigMiddlewareSvc in front: it reserves the room its TSIG record
+        // needs and signs every response; the client sequence validates
+        let p = provider.clone();
+        let apex = c.apex.clone();
+        match block_on_paused(async move { serve_tsig(p, &apex, None, req_id).await }) {
+            Ok((r, wire_lens)) => {
+                if wire_lens.iter().any(|l| *l > 60000) {
+                    ctx.class("tsig-signed-message-near-64K");
+                }
+                r
+            }
+            Err(e) => vfail!(format!("{what}:signed-stream-invalid"), "{e} | {}", show_case(&c)),
+        }
+    } else {
+        match serve_once(udp, reserve) {
+            Ok(r) => r,
+            Err(e) => vfail!(format!("{what}:no-response-stream"), "{e}"),
+        }
     };
+    // the room other layers reserved must be left in every message
+    if kind != SKind::AxfrTcpTsig {
+        let cap = match udp {
+            Some(hint) => hint.unwrap_or(512) as usize,
+            None => 65535 - reserve as usize,
+        };
+        for (i, m) in responses.iter().enumerate() {
+            vensure!(
+                m.len() <= cap,
+                format!("{what}:message-leaves-no-room-for-reserved-bytes"),
+                "response {i} of {} has {} octets; limit {} = {} - {} reserved | {}",
+                responses.len(),
+                m.len(),
+                cap,
+                if udp.is_some() { cap } else { 65535 },
+                if udp.is_some() { 0 } else { reserve },
+                show_case(&c)
+            );
+        }
+        if udp.is_none() && reserve > 0 && responses.len() >= 2 && responses.iter().any(|m| m.len() > 60000) {
+            ctx.class("tcp-reserved-bytes-and-message-near-64K");
+        }
+    }
     vensure!(!responses.is_empty(), format!("{what}:empty-response-stream"), "the middleware produced no response message");
     ctx.sample(|| format!("{} {} | sender sent {} messages, limit {}", kind.label(), show_case(&c), responses.len(), limit));
 
@@ -1228,7 +1281,7 @@ fn health(c: &BTreeMap<String, u64>, _thorough: bool) -> Result<(), String> {
     for k in [
         "axfr-into-empty", "axfr-over-old", "ixfr-steps", "ixfr-condensed", "ixfr-axfr-fallback", "multi-message", "ixfr-with-deletes-and-adds",
         "cuts:one-per-message", "cuts:random-cuts", "compress:All", "tsig-in-additional", "serial-wraps-2^32", "serial-crosses-2^31",
-        "axfr-tcp", "ixfr-tcp-model-diffs", "ixfr-tcp-library-diffs", "ixfr-udp", "library-sender-multi-message", "library-records-repacked",
+        "axfr-tcp", "axfr-tcp-tsig-middleware", "tcp-reserved-bytes-and-message-near-64K", "tsig-signed-message-near-64K", "ixfr-tcp-model-diffs", "ixfr-tcp-library-diffs", "ixfr-udp", "library-sender-multi-message", "library-records-repacked",
         "verdict:must-reject", "verdict:complete", "verdict:incomplete", "fault-after-first-message", "answers-compared-with-untouched-twin", "twin-compare-after-aborted-deletes",
         "fault:drop-msg", "fault:dup-msg", "fault:swap-msgs", "fault:truncate-bytes", "fault:flip-qr", "fault:opcode", "fault:rcode", "fault:tc", "fault:qtype",
         "fault:first-not-soa", "fault:only-first-record", "verdict:single-soa", "fault:missing-final-soa", "fault:different-final-soa", "fault:extra-record-after-end", "fault:ancount-zero", "fault:nscount", "fault:qdcount-2",
